@@ -56,6 +56,12 @@ theorem enc_dec_core : ∀ m ∈ IceMode.all, ∀ fg, fg < 16 → ∀ bg, bg < 1
       (fromU8 m (encByte m fg bg bold blink)).fg = fg ∧ (fromU8 m (encByte m fg bg bold blink)).bg = bg ∧
       (fromU8 m (encByte m fg bg bold blink)).isBlink = blink := by decide +kernel
 
+/-- bold attributes whose foreground is already bright (bit 3 set) are carried too: bold only ORs bit 3 in -/
+theorem enc_dec_bold_core : ∀ m ∈ IceMode.all, ∀ fg, fg < 16 → 8 ≤ fg → ∀ bg, bg < 16 → ∀ blink : Bool,
+    ExpressibleT m fg bg false blink →
+      (fromU8 m (encByte m fg bg true blink)).fg = fg ∧ (fromU8 m (encByte m fg bg true blink)).bg = bg ∧
+      (fromU8 m (encByte m fg bg true blink)).isBlink = blink := by decide +kernel
+
 theorem IceMode.mem_all (m : IceMode) : m ∈ IceMode.all := by cases m <;> decide
 
 theorem dec_enc_core : ∀ m ∈ IceMode.all, ∀ b, b < 256 → asU8 m (fromU8 m b) = b := by decide +kernel
